@@ -300,7 +300,7 @@ STD_IMAGES = {
     "datetime": ["2020-01-02T03:04:05", "2020-01-02T03:04:05+00:00"],
     "time": ["03:04:05", "23:59:00"],
     "decimal": [1.5, 0.25, 2.0],
-    "bytes": ["YWJj", "", "YQ=="],
+    "bytes": ["YWJj", "", "YQ==", "+/+/", "/w==", "A+B/"],  # (both characters where the URL-safe alphabet differs)
     "path": ["a/b", "/tmp/x", "x"],
     "ipv4": ["127.0.0.1", "10.0.0.255"],
 }
